@@ -130,7 +130,7 @@ func (e *Engine) exec(fr *Frame, instr ssa.Instruction) {
 		s := e.val(fr, in.X).(*StructV)
 		e.set(fr, in, deepCopy(s.F[in.Field]))
 	case *ssa.FieldAddr:
-		p := e.val(fr, in.X).(Ptr)
+		p := e.concPtr(e.val(fr, in.X).(Ptr))
 		if p.IsNil() {
 			e.goPanic("nil", "invalid memory address or nil pointer dereference", nil)
 			return
@@ -213,6 +213,17 @@ func (e *Engine) exec(fr *Frame, instr ssa.Instruction) {
 			return
 		}
 		e.recordAccess(p, true)
+		if p.Sym != nil {
+			v, ok := e.val(fr, in.Val).(*smt.Term)
+			if !ok {
+				e.unsupported("store of non-scalar through symbolic index")
+			}
+			a := e.st.arrayForWrite(Ptr{Obj: p.Obj, Path: p.Path})
+			for k := range a.E {
+				a.E[k] = smt.Ite(smt.Eq(p.Sym, smt.BV(uint64(k), p.Sym.W)), v, a.E[k].(*smt.Term))
+			}
+			break
+		}
 		e.st.store(p, e.val(fr, in.Val))
 	case *ssa.TypeAssert:
 		e.typeAssert(fr, in)
@@ -602,6 +613,15 @@ func (e *Engine) unop(fr *Frame, in *ssa.UnOp) {
 			panic(instrAbort{})
 		}
 		e.recordAccess(p, false)
+		if p.Sym != nil {
+			a := e.st.arrayForRead(Ptr{Obj: p.Obj, Path: p.Path})
+			r := a.E[0].(*smt.Term)
+			for k := 1; k < len(a.E); k++ {
+				r = smt.Ite(smt.Eq(p.Sym, smt.BV(uint64(k), p.Sym.W)), a.E[k].(*smt.Term), r)
+			}
+			e.set(fr, in, r)
+			break
+		}
 		e.set(fr, in, e.st.load(p))
 	case token.SUB:
 		e.set(fr, in, smt.Neg(x.(*smt.Term)))
@@ -814,19 +834,47 @@ func (e *Engine) indexAddr(fr *Frame, in *ssa.IndexAddr) {
 	idx := widen64(e.term(fr, in.Index), in.Index.Type())
 	switch c := x.(type) {
 	case Slice:
+		if !idx.IsConst() && c.Len > 0 && c.Len <= 1024 && c.Off == 0 {
+			if a := e.st.arrayForRead(c.Arr); len(a.E) == c.Len {
+				if _, ok := a.E[0].(*smt.Term); ok {
+					e.panicIf(smt.Not(smt.Cmp(smt.OpUlt, idx, smt.BV(uint64(c.Len), idx.W))), "index", fmt.Sprintf("index out of range with length %d", c.Len))
+					e.set(fr, in, Ptr{Obj: c.Arr.Obj, Path: c.Arr.Path, Sym: idx, SymN: c.Len})
+					return
+				}
+			}
+		}
 		i := e.boundsCheck(idx, c.Len, "slice")
 		e.set(fr, in, c.Arr.Sub(c.Off+i))
 	case Ptr: // *array
+		c = e.concPtr(c)
 		if c.IsNil() {
 			e.goPanic("nil", "invalid memory address or nil pointer dereference", nil)
 			panic(instrAbort{})
 		}
 		n := int(in.X.Type().Underlying().(*types.Pointer).Elem().Underlying().(*types.Array).Len())
+		if !idx.IsConst() && n > 0 && n <= 1024 {
+			if a, ok := e.st.loadRef(c).(*ArrayV); ok {
+				if _, ok := a.E[0].(*smt.Term); ok {
+					e.panicIf(smt.Not(smt.Cmp(smt.OpUlt, idx, smt.BV(uint64(n), idx.W))), "index", fmt.Sprintf("index out of range with length %d", n))
+					e.set(fr, in, Ptr{Obj: c.Obj, Path: c.Path, Sym: idx, SymN: n})
+					return
+				}
+			}
+		}
 		i := e.boundsCheck(idx, n, "array")
 		e.set(fr, in, c.Sub(i))
 	default:
 		e.unsupported("IndexAddr on %T", x)
 	}
+}
+
+// concPtr turns a symbolic-index pointer into a concrete one (one fork per feasible index).
+func (e *Engine) concPtr(p Ptr) Ptr {
+	if p.Sym == nil {
+		return p
+	}
+	i := int(e.concInt(p.Sym, "pointer index"))
+	return Ptr{Obj: p.Obj, Path: p.Path}.Sub(i)
 }
 
 func (e *Engine) makeSlice(fr *Frame, in *ssa.MakeSlice) {
